@@ -12,6 +12,7 @@ func init() {
 		run: func(c *Ctx, r *Report) {
 			ruleGlobals(c, r, "")
 			ruleInitClosures(c, r, "")
+			rulePropsWriters(c, r, "")
 			ruleLoggerLockset(c, r, "")
 			ruleNondeterminism(c, r, "")
 		},
